@@ -22,6 +22,28 @@ REG = dict(category="model_checking",
     "trace validation of the repository's musig tests (guarded hooks) against the TLA+ trace specification",
     design_ref="DESIGN.md §4 C13")
 
+def apalache_inductive(chk):
+    """unbounded histories: the single-use invariants as an inductive invariant (symbolic, Apalache).
+    Design level (independent of /repo): an Error is a defect of the specification -> infrastructure error."""
+    import shutil, subprocess
+    if not shutil.which("apalache-mc"):
+        chk.notes.append("apalache-mc not found: inductive-invariant obligations skipped"); return
+    stage = vlib.stage_specs(os.path.join(chk.out, "stage"))
+    done = 0
+    for init, length in (("Init", 0), ("IndInit", 1)):
+        try:
+            p = vlib.run(["apalache-mc", "check", "--cinit=CInit", "--init=" + init, "--inv=IndInv", "--length=%d" % length,
+                          "--out-dir=" + chk.out + "/apalache", "C13_Inductive.tla"], 900, cwd=stage)
+        except subprocess.TimeoutExpired:
+            chk.notes.append("apalache timed out on obligation %s (not counted)" % init); continue
+        if "EXITCODE: OK" in p.stdout: done += 1
+        elif "violated" in p.stdout or "EXITCODE: ERROR (12)" in p.stdout:
+            raise Infra("C13_Inductive: IndInv is not inductive (obligation %s):\n%s" % (init, p.stdout[-1500:]))
+        else:
+            chk.notes.append("apalache could not decide obligation %s: %s" % (init, p.stdout[-300:].replace("\n", " ")))
+    chk.notes.append("Apalache: %d/2 inductive-invariant obligations discharged (Init => IndInv; IndInv /\\ Next => IndInv') for 3 objects, 2 keys, 8 nonce ids, histories of ANY length" % done)
+    log("[C13] Apalache inductive invariant: %d/2 obligations discharged" % done)
+
 def skey(s): return json.dumps(s, sort_keys=True)
 
 def to_record(label, src, dst):
@@ -61,6 +83,7 @@ def run(chk):
     gpath = chk.out + "/graph.ndjson"
     r = chk.model(MODULE, cfg, env={"GEN_OUT": gpath}, timeout=3000)
     chk.exhaustive = True
+    apalache_inductive(chk)
     edges = vlib.read_ndjson(gpath)
     consts = {"nobj": len(edges[0]["src"]["obj"]), "nbuf": len(edges[0]["src"]["rand"]), "nkey": 2}
     # graph
